@@ -97,6 +97,8 @@ def call(fn, *a, **k):
         try:
             return ("ok", fn(*a, **k))
         except Exception as ex:  # noqa: BLE001
+            if isinstance(ex, ValueError) and "No objects to concatenate" in str(ex):
+                return ("raise", "NoRows")  # pandas: every row of the result frame was dropped (inf somewhere)
             return ("raise", type(ex).__name__)
 
 
@@ -122,12 +124,12 @@ class Batch:
         self.lines = []
         self.exact = []  # (driver line, expected output text, case): compared exactly
 
-    def add(self, what, case, op_prefix, arrays, real, shape, dropped_on_inf=True, tie_possible=False, scale=1.0, factor=1.0):
+    def add(self, what, case, op_prefix, arrays, real, shape, dropped_on_inf=True, tie_possible=False, scale=1.0, factor=1.0, tie_locs=()):
         start = len(self.lines)
         for _, txt in cols(*arrays):
             self.lines.append(op_prefix + " " + txt)
         self.items.append(dict(what=what, case=case, start=start, n=len(self.lines) - start, real=real, shape=shape,
-                               dropped_on_inf=dropped_on_inf, tie=tie_possible, scale=scale, factor=factor))
+                               dropped_on_inf=dropped_on_inf, tie=tie_possible, scale=scale, factor=factor, tie_locs=set(tie_locs)))
 
 
 def parse_res(s):
@@ -151,13 +153,23 @@ def judge(item, outs, res):
            else ("model non-finite at some location" if any(k == "error" for k, _ in per) else "finite everywhere"))
     tag += " / impl " + (f"raises {val}" if kind == "raise" else ("row dropped" if val is None else "returns"))
     hist[tag] = hist.get(tag, 0) + 1
+    if item["tie_locs"]:
+        # discontinuity guard: a *computed* (lerp-ed) quantile sits within rounding of 0 in a denominator at these
+        # locations; float and exact arithmetic may legitimately fall on different sides (zero guard, inf, huge value)
+        res.extra["ties_accepted"] = res.extra.get("ties_accepted", 0) + 1
+        if kind == "raise":
+            return None if val == "ZeroDivisionError" or (raises and val == raises[0]) else f"raised {val}"
+        if val is None:
+            return None
+        raises = []
     if raises:
         # Model.Evaluate.gridEval: one raising location aborts the call.  The multiplicative guards are `np.all` over
-        # the grid; when only SOME locations trip them the property does not fix whether the call raises or reports
-        # non-finite values there, so both are accepted (and counted).  All locations raising (1x1 included) must raise.
+        # the grid; on a grid with more than one location the property does not fix whether a zero validation statistic
+        # at some location makes the call raise or report non-finite values there (the documented quantity does not
+        # exist at such a location either way), so both are accepted (and counted).  A 1x1 grid must raise.
         if kind == "raise":
             return None if val == raises[0] else f"raised {val}, model {raises[0]}"
-        if len(raises) == len(per) or raises[0] != "ZeroDivisionError":
+        if len(per) == 1 or raises[0] != "ZeroDivisionError":
             return f"returned a value, model raises {raises[0]}"
         res.extra["mixed_guard_accepted"] = res.extra.get("mixed_guard_accepted", 0) + 1
     elif kind == "raise":
@@ -172,6 +184,8 @@ def judge(item, outs, res):
         return f"shape {val.shape} instead of {item['shape']}"
     flat = val.reshape(-1)
     for n, ((k, v), r) in enumerate(zip(per, flat)):
+        if n in item["tie_locs"]:
+            continue
         if k == "error":
             if item["tie"]:
                 res.extra["ties_accepted"] = res.extra.get("ties_accepted", 0) + 1
@@ -181,6 +195,13 @@ def judge(item, outs, res):
         elif not close(float(r), v, item["scale"]):
             return f"location {n}: impl {float(r)!r}, model {float(v)!r}"
     return None
+
+
+def tie_locations(q, dens):
+    """locations (row-major index) where a denominator formed from lerp-ed quantiles is within rounding of zero.
+    dens: list of functions (i, j) -> float; only needed for quantile statistics"""
+    return lambda shape, scale: {i * shape[1] + j for i in range(shape[0]) for j in range(shape[1])
+                                 if any(abs(d(i, j)) < 1e-9 * (1 + scale) for d in dens)}
 
 
 # ------------------------------------------------------------------ reference formulas (the property oracle)
@@ -285,8 +306,9 @@ def run_case(k, rng, tier, batch, res, problems, n_oracle):
             "statistics": stats, "metrics": [m[1] for m in metrics]}
     data = {"obs": obs.tolist(), "rawV": rawV.tolist(), "rawF": rawF.tolist(), "bcV": bcV.tolist(), "bcF": bcF.tolist(),
             "tV": [str(d) for d in tV], "tF": [str(d) for d in tF], "metric_specs": [list(m[2]) for m in metrics]}
-    res.count((I, J, flavour, ny_v, ny_f, len(tV), len(tF), tuple(map(str, stats)), obs.tobytes()[:64]), I * J > 1 or ny_v == 1,
-              sample={**case, "obs_column_00": obs[:, 0, 0].tolist()[:6]})
+    if len(res.cov["samples"]) < 4:
+        res.cov["samples"].append({**case, "obs_column_00": obs[:, 0, 0].tolist()[:6]})
+    res.extra["cases"] = res.extra.get("cases", 0) + 1
     mobjs = [m[0] for m in metrics]
     shape = (I, J)
 
@@ -309,12 +331,13 @@ def run_case(k, rng, tier, batch, res, problems, n_oracle):
                 else:
                     ms, name, kw, op, stat_ref, tie, sc = None, f"{st} qn", dict(statistics=[st], metrics=[]), f"mq {bt} {C.rat(st)}", st, True, scale
                 one = call(marginal.calculate_marginal_bias, obs=[obs, tV], percentage_or_absolute=bt, **kw, **{key: [cm, tV]})
-                if one[0] == "raise" and one[1] == "ValueError" and bt == "percentage":
+                if one[0] == "raise" and one[1] == "NoRows":
                     one = ("ok", None)
                 else:
                     one = one if one[0] == "raise" else ("ok", row(one[1], key, name))
+                tl = tie_locations(st, [lambda i, j: stat_at(st, obs, i, j)])(shape, scale) if tie and bt == "percentage" else ()
                 batch.add("calculate_marginal_bias", {**case, "bt": bt, "stat": str(st), "key": key}, op, [obs, cm], one, shape,
-                          dropped_on_inf=(bt == "percentage"), tie_possible=tie, scale=sc)
+                          dropped_on_inf=(bt == "percentage"), tie_possible=tie, scale=sc, tie_locs=tl)
                 why = differs(one, ref_marginal(bt, stat_ref, obs, cm, ms), sc)
                 if why:
                     problem("calculate_marginal_bias", f"{name} {bt} bias of '{key}': {why}", {"bt": bt, "stat": str(st), "key": key})
@@ -368,13 +391,18 @@ def run_case(k, rng, tier, batch, res, problems, n_oracle):
                     ms, name, kw, op, stat_ref, tie = None, f"{st} qn", dict(statistics=[st], metrics=[]), f"tbq {tt} {C.rat(st)}", st, True
                 one = call(trend.calculate_future_trend_bias, raw_validate=rawV, raw_future=rawF, trend_type=tt, time_validate=tV, time_future=tF,
                            **kw, **{key: [v, f_]})
-                if one[0] == "raise" and one[1] == "ValueError" and tt in ("additive", "multiplicative"):
+                if one[0] == "raise" and one[1] == "NoRows":
                     # pd.concat of no rows (every row dropped because of an inf): same as a dropped row
                     one = ("ok", None)
                 else:
                     one = one if one[0] == "raise" else ("ok", row(one[1], key, name))
+                tl = ()
+                if tie:
+                    dens = ([lambda i, j: stat_at(st, rawF, i, j) - stat_at(st, rawV, i, j)] if tt == "additive" else
+                            [lambda i, j: stat_at(st, v, i, j), lambda i, j: stat_at(st, rawV, i, j), lambda i, j: stat_at(st, rawF, i, j)])
+                    tl = tie_locations(st, dens)(shape, scale)
                 batch.add("calculate_future_trend_bias", {**case, "tt": tt, "stat": str(st), "key": key}, op, [rawV, rawF, v, f_], one, shape,
-                          tie_possible=tie, scale=100.0)
+                          tie_possible=tie, scale=100.0, tie_locs=tl)
                 why = differs(one, ref_trend_bias(tt, stat_ref, rawV, rawF, v, f_, ms), 100.0)
                 if why:
                     problem("calculate_future_trend_bias", f"{tt} trend bias of {name} ('{key}'): {why}", {"tt": tt, "stat": str(st), "key": key})
@@ -393,11 +421,13 @@ def run_case(k, rng, tier, batch, res, problems, n_oracle):
                 else:
                     ms, name, kw, op, stat_ref, tie = None, f"{st} qn", dict(statistics=[st], metrics=[]), f"tq {tt} {C.rat(st)}", st, True
                 one = call(trend.calculate_future_trend, trend_type=tt, time_validate=tV, time_future=tF, **kw, **{key: [v, f_]})
-                if one[0] == "raise" and one[1] == "ValueError":
+                if one[0] == "raise" and one[1] == "NoRows":
                     one = ("ok", None)
                 else:
                     one = one if one[0] == "raise" else ("ok", row(one[1], key, name))
-                batch.add("calculate_future_trend", {**case, "tt": tt, "stat": str(st), "key": key}, op, [v, f_], one, shape, tie_possible=tie, scale=scale)
+                tl = tie_locations(st, [lambda i, j: stat_at(st, v, i, j)])(shape, scale) if tie and tt == "multiplicative" else ()
+                batch.add("calculate_future_trend", {**case, "tt": tt, "stat": str(st), "key": key}, op, [v, f_], one, shape, tie_possible=tie,
+                          scale=scale, tie_locs=tl)
                 why = differs(one, ref_trend(tt, stat_ref, v, f_, ms), scale)
                 if why:
                     problem("calculate_future_trend", f"{tt} trend of {name}: {why}", {"tt": tt, "stat": str(st)})
@@ -415,6 +445,17 @@ def run_case(k, rng, tier, batch, res, problems, n_oracle):
     why = differs(real, ref_chi(m1s, m2s, rawV, bcV), 100.0)
     if why:
         problem("calculate_conditional_joint_threshold_exceedance", f"P({m1t} | {m2t}) in percent: {why}", {"m1": m1t, "m2": m2t})
+
+    # ---------------- error paths of the per-location helpers (exception classes compared exactly)
+    if k % 3 == 0:
+        batch.add("_calculate_mean_trend_bias", {**case, "tt": "linear"}, "tbmean linear", [rawV, rawF, bcV, bcF],
+                  call(trend._calculate_mean_trend_bias, "linear", rawV, rawF, bcV, bcF), shape)
+        batch.add("_calculate_quantile_trend", {**case, "tt": "linear"}, "tq linear 1/2", [bcV, bcF],
+                  call(trend._calculate_quantile_trend, "linear", 0.5, bcV, bcF), shape)
+        batch.add("_marginal_mean_bias", {**case, "bt": "relative"}, "mmean relative", [obs, rawV],
+                  call(marginal._marginal_mean_bias, obs, rawV, "relative"), shape)
+        batch.add("_marginal_quantile_bias", {**case, "bt": "absolute", "stat": "1.5"}, "mq absolute 3/2", [obs, rawV],
+                  call(marginal._marginal_quantile_bias, 1.5, obs, rawV, "absolute"), shape)
 
     # ---------------- property oracle: metamorphic relations on the real code (small budget per case)
     if k < n_oracle:
@@ -598,10 +639,11 @@ def judge_rmse(item, out):
 
 def run(tier, res, force_search=False):
     rng = random.Random(C.seed() * 9973 + 20)
-    res.rule = ("cases = (grid 1x1 | 1x3 | 2x2 | 3x1 (| 2x3), 1-3 years of dates for the validation and the future period, flavour regular | "
+    res.rule = ("an evaluation = one public call (one statistic / metric, one bias or trend type, one data set key) compared at every location; "
+                "cases = (grid 1x1 | 1x3 | 2x2 | 3x1 (| 2x3), 1-3 years of dates for the validation and the future period, flavour regular | "
                 "degenerate (constant / zero columns), statistics list, two threshold metrics of random type) with dyadic data k/8 from one PRNG "
-                "(VERIF_SEED); every public function is called on every case for both bias types / trend types; a case is non-trivial when the "
-                "grid has more than one location or the validation period is a single year; distinct = distinct (grid, flavour, years, lengths, statistics, data)")
+                "(VERIF_SEED); every public function is called on every case for both bias types / trend types; an evaluation is non-trivial when the "
+                "grid has more than one location or the validation period is a single year; distinct = distinct (function, case, statistic, type, key)")
     res.trusted = C.BASE_TRUSTED + [
         "np.mean / np.quantile / np.sum / np.einsum('ijk -> jk') over axis 0 act on every location's column separately (translator option `column`); "
         "np.quantile's default method is Model.Stats.quantileLinear",
@@ -614,15 +656,15 @@ def run(tier, res, force_search=False):
     res.assumptions = [
         "guards of the property: denominators (observed statistic, raw trend, validation statistics) non-zero, metric 2 occurs at every location, time sorted",
         "the conditional joint exceedance is reported in percent (the code multiplies chi by 100; docstring says probability)",
-        "when only some locations trip a multiplicative zero guard the check accepts both a ZeroDivisionError and non-finite values at those locations (counted as mixed_guard_accepted)",
+        "on grids with more than one location, where some location trips a multiplicative zero guard, the check accepts both a ZeroDivisionError of the whole call and non-finite values at those locations (counted as mixed_guard_accepted); a 1x1 grid must raise",
         "quantile-based denominators that are exactly 0 in the model are accepted as ties (float lerp can differ in the last bit)",
     ]
 
     lean_ok = C.lean_phase(res, PROP, GEN, TARGETS)
     logging.disable(logging.WARNING)  # trend.py reports dropped rows with logging.warning
 
-    n_cases = 9 if tier == "quick" else 60
-    n_oracle = 4 if tier == "quick" else 24
+    n_cases = 9 if tier == "quick" else 240
+    n_oracle = 4 if tier == "quick" else 80
     if force_search or not lean_ok:
         n_oracle *= 3
         n_cases = max(n_cases, n_oracle)
@@ -630,9 +672,12 @@ def run(tier, res, force_search=False):
     for k in range(n_cases):
         run_case(k, rng, tier, batch, res, problems, n_oracle)
     rl, rex = [], []
-    for k in range(4 if tier == "quick" else 16):
+    for k in range(4 if tier == "quick" else 40):
         rmse_case(k, rng, rl, rex, res)
 
+    for it in batch.items:  # one evaluation = one public call compared at every location
+        cs = it["case"]
+        res.count((it["what"], str(sorted((k_, str(v_)) for k_, v_ in cs.items()))), cs["grid"] != [1, 1] or cs["years_validate"] == 1)
     mismatches = []
     try:
         out = C.run_driver("DrvEvaluate", batch.lines + rl)
@@ -676,7 +721,7 @@ def run(tier, res, force_search=False):
 
     seen = set()
     for p, case in problems:
-        key = (case.get("what"), case.get("relation"), case.get("tt"), case.get("bt"), p.split(":")[1][:40] if ":" in p else p[:40])
+        key = (case.get("what"), case.get("relation"), case.get("tt"), case.get("bt"))
         if key in seen:
             continue
         seen.add(key)
